@@ -2,6 +2,7 @@ import Comdex.Base.Line
 import Comdex.Model.AmmPool
 import Comdex.Model.AmmKeeper
 import Comdex.Model.AmmDust
+import Comdex.Model.AmmRanged
 /-! Driver for the batch-matching model (property C05).
 
 Lines (tab separated, after the sequence number):
@@ -27,6 +28,11 @@ Lines (tab separated, after the sequence number):
         real PoolBuyOrders / PoolSellOrders(NewBasicPool(rx, ry), DefaultOrderer, lowest, highest, prec); lists `price:amount,…`
         monitors pool_within_reserves / pool_not_worse_than_curve on the REAL lists
   amm.bp <fn> <rx> <ry> <price> <result|panic>      BasicPool: price, bo (BuyAmountOver), su (SellAmountUnder), bt (BuyAmountTo), st (SellAmountTo)
+  amm.rp <fn> <rx> <ry> <min> <max> <price> <result|panic>   RangedPool built by NewRangedPool(rx, ry, min, max): trans (Translation,
+        `transX:transY`), price, bo, su, bt, st as for amm.bp
+  amm.rpool <rx> <ry> <min> <max> <lowest> <highest> <prec> <buys> <sells>
+        real PoolBuyOrders / PoolSellOrders(NewRangedPool(rx, ry, min, max), DefaultOrderer, lowest, highest, prec)
+        monitor pool_within_reserves_and_curve on the REAL lists (`monRPoolBuyOrders`, `monRPoolSellOrders`)
   amm.k.begin <tickPrecision>                        a fresh pair on the REAL keeper (no pools)
   amm.k.place <dir> <msgPrice> <amount> <expireAt> <ok|err> <id> <price> <offer> <batchId>
         real MsgLimitOrder through the message router; the stored order's id / tick-fitted price / offer coin / batch id
@@ -329,6 +335,44 @@ def handle (st : St) (seq : String) (f : List String) : St × List String :=
         (st, d ++ m1)
       | _, _ => (st, [s!"BAD\t{seq}\tpool lists"])
     | _, _, _, _, _ => (st, [s!"BAD\t{seq}\tpool"])
+  | ["amm.rp", fn, rx, ry, mn, mx, price, r] =>
+    match parseInt? rx, parseInt? ry, parseInt? mn, parseInt? mx, parseInt? price with
+    | some rx, some ry, some mn, some mx, some price =>
+      let ms : String := match RPool.new rx ry mn mx with
+        | none => "panic"
+        | some pl =>
+          if fn = "trans" then s!"{pl.transX}:{pl.transY}" else
+          let m : Option Int :=
+            if fn = "price" then pl.price
+            else if fn = "bo" then pl.buyAmountOver price
+            else if fn = "su" then pl.sellAmountUnder price
+            else if fn = "bt" then pl.buyAmountTo price
+            else if fn = "st" then pl.sellAmountTo price
+            else none
+          match m with | none => "panic" | some a => toString a
+      (st, if ms = r then [] else [s!"DIFF\t{seq}\trp {fn} {rx} {ry} {mn} {mx} {price}\tmodel={ms}\timpl={r}"])
+    | _, _, _, _, _ => (st, [s!"BAD\t{seq}\trp"])
+  | ["amm.rpool", rx, ry, mn, mx, lo, hi, prec, buys, sells] =>
+    match parseInt? rx, parseInt? ry, parseInt? mn, parseInt? mx, parseInt? lo, parseInt? hi, parseNat? prec with
+    | some rx, some ry, some mn, some mx, some lo, some hi, some prec =>
+      let sh := fun (l : List (Int × Int)) => ",".intercalate (l.map fun pa => s!"{pa.1}:{pa.2}")
+      match RPool.new rx ry mn mx with
+      | none => (st, [s!"DIFF\t{seq}\trpool: the model's NewRangedPool panics"])
+      | some pl =>
+        let m := s!"{sh (rPoolBuyOrders pl lo hi prec)}\t{sh (rPoolSellOrders pl lo hi prec)}"
+        let r := s!"{buys}\t{sells}"
+        let d := if m = r then [] else [s!"DIFF\t{seq}\tmodel={m}\timpl={r}"]
+        let parse := fun (t : String) => if t = "" then some [] else
+          (t.splitOn ",").mapM fun x => match x.splitOn ":" with
+            | [a, b] => do let a ← parseInt? a; let b ← parseInt? b; pure (a, b)
+            | _ => none
+        match parse buys, parse sells with
+        | some bl, some sl =>
+          let m1 := if monRPoolBuyOrders pl hi bl && monRPoolSellOrders pl lo sl then []
+            else [s!"MON\t{seq}\tpool_within_reserves_and_curve"]
+          (st, d ++ m1)
+        | _, _ => (st, [s!"BAD\t{seq}\trpool lists"])
+    | _, _, _, _, _, _, _ => (st, [s!"BAD\t{seq}\trpool"])
   | ["amm.bp", fn, rx, ry, price, r] =>
     match parseInt? rx, parseInt? ry, parseInt? price with
     | some rx, some ry, some price =>
